@@ -3,6 +3,7 @@ import os
 
 import common as C
 import validout
+import c1113x
 
 PROP = "C11"
 NAME = "c11"
@@ -13,7 +14,7 @@ def build(ctx):
     ctx.log("translate", out)
     if not ok:
         ctx.diag.append("translator failed: " + out[-300:])
-    C.prove(ctx, ["Props/C11.v", "Props/C11Valid.v"], ["Oblig/C11Obl.v", "Oblig/ValidSegObl.v"])
+    C.prove(ctx, ["Props/C11.v", "Props/C11Valid.v", "Props/C11General.v"], ["Oblig/C11Obl.v", "Oblig/ValidSegObl.v", "Oblig/C11GenObl.v"])
     ok, out = C.build_harness()
     ctx.log("go build", out)
     if not ok:
@@ -27,6 +28,7 @@ def build(ctx):
     ctx.log("ocaml", out[-3000:])
     if not ok:
         ctx.diag.append("extracted model does not build: " + out[-600:])
+    c1113x.build(ctx, "seg")
     return True
 
 
@@ -49,16 +51,18 @@ def search(ctx, factor):
     oracle(ctx, ctx.scale(8000, 150000) * factor, "search")
     found = ctx.fails[before:]
     del ctx.fails[before:]
-    return found
+    return found + c1113x.search(ctx, "seg", factor)
 
 
 def run(ctx):
     ctx.search = search
     ctx.trusted += ["segment-table emitter of the translator (three transaction-code switches and two service-class switches of SegmentFile; calculateBatchAmounts / calculateADVBatchAmounts lists; StandardTransactionCode list)",
-                    "hand model of the batch walk, fresh-batch tabulation, File.Create renumbering and the File.Validate fragment (coq/Model/Segment.v), tied by the extracted-model correspondence"]
+                    "hand model of the batch walk, fresh-batch tabulation, File.Create renumbering and the File.Validate fragment (coq/Model/Segment.v), tied by the extracted-model correspondence",
+                    "phase 3: hand model of File.AddBatch / Batch.Category / Batch.isCategory (coq/Model/SegmentGen.v) and the abstraction of generated files (harness/internal/c1113x: tags in DFIAccountNumber, interned identifications, list positions by pointer identity), tied by the generated-file correspondence"]
     ctx.assumptions += ["validation is modelled as the fragment that matters for segmentation (standard batches: class vs directions, control totals, standard codes; file totals; ascending batch numbers of f.Batches; ADV files: file totals only); IAT and ADV batches are assumed well-formed as generated (File.Validate does not look inside them); the full Validate of both outputs is exercised by the oracle",
                         "entry identity = the entry with its addenda as moved by pointer; trace numbers of split IAT batches are re-sequenced by the code and excluded from the identity",
-                        "integers unbounded (amounts up to 10 digits, sums far below 2^63)"]
+                        "integers unbounded (amounts up to 10 digits, sums far below 2^63)",
+                        "EntryDetail.Category is a function of the entry identity (entries are moved by pointer); the union of the two halves' ReturnEntries / NotificationOfChange lists and success with the category check are stated for category-uniform batches (what ach.Reader yields)"]
     if not build(ctx):
         return
     d = os.path.join(ctx.rundir, "corr")
@@ -74,6 +78,7 @@ def run(ctx):
     else:
         ctx.diag.append("correspondence could not run: " + out[-300:])
     validout.run(ctx, "segment")
+    ctx.add_summary(c1113x.run(ctx, "seg"), "C11 general (gen files)")
     summ = oracle(ctx, ctx.scale(8000, 150000))
     ctx.add_summary(summ, "File.SegmentFile oracle")
     if ctx.tier == "thorough":
@@ -81,6 +86,8 @@ def run(ctx):
 
 
 def replay(path):
+    if c1113x.is_case(path):
+        return c1113x.replay(path)
     ok, out = C.build_harness()
     if not ok:
         print(out[-2000:])
